@@ -19,6 +19,7 @@ require (
 	github.com/hyperledger/aries-framework-go/component/vdr v0.0.0
 	github.com/hyperledger/aries-framework-go/spi v0.0.0
 	golang.org/x/crypto v0.1.0
+	google.golang.org/protobuf v1.28.1
 )
 
 require (
@@ -66,7 +67,6 @@ require (
 	github.com/xeipuuv/gojsonschema v1.2.0 // indirect
 	golang.org/x/exp v0.0.0-20230728194245-b0cb94b80691 // indirect
 	golang.org/x/sys v0.2.0 // indirect
-	google.golang.org/protobuf v1.28.1 // indirect
 	gopkg.in/yaml.v3 v3.0.1 // indirect
 	rsc.io/tmplfunc v0.0.3 // indirect
 )
